@@ -299,3 +299,23 @@ PROPS["C09"] = Prop(
     technique="runtime monitor: helper results vs brute-force set-theoretic definitions computed over all objects with the SET model, under gcc ASan+UBSan",
     level_text="exploration: generated topologies x generated query sets/objects; every helper call is compared with its definition evaluated by exhaustive scan",
 )
+
+
+PROPS["C02"] = Prop(
+    "C02",
+    [Stage("asan", "c02_history", "asan", quick=4000, thorough=80000, per_worker_env=xml_backend_env)],
+    rule=("one history per case: an initial topology (synthetic or corpus XML, random filters, INCLUDE_DISALLOWED/NO_* flags) then 4-12 "
+          "(thorough 4-16) random modifying calls with valid and invalid arguments (restrict by cpuset/nodeset with all 32 flag words + "
+          "unknown bits, insert_misc, alloc/insert/free group with 11 set shapes and kind/subkind/dont_merge, allow, distances "
+          "add(+GROUP)/remove, memattr register/set_value, cpukinds_register, infos, subtype, refresh) with dup / XML-reload carriers; after "
+          "every call: WF + built-in checker, CANON(all) equality when the call is documented to leave the topology untouched, "
+          "type/userdata persistence by gp_index. distinct+non-trivial = class 1: histories with >= 2 successful calls that changed CANON, "
+          "keyed by (initial shape, sequence of (op, outcome class))"),
+    nontrivial_classes=[1], floor=300,
+    assumptions=COMMON_ASSUME + [
+        "object identity is the gp_index; a Group replaced by a newly inserted Group counts as old object gone / new object appeared",
+        "'observably unchanged' is CANON equality (tree, sets, attributes, infos, userdata pointers, allowed sets, distances, memattrs, cpukinds)",
+        "ENOMEM paths are not injected"],
+    technique="runtime monitor: history executor with per-step well-formedness oracle, before/after canonical dumps and identity persistence table, under gcc ASan+UBSan+LSan",
+    level_text="exploration: random histories; every step is followed by the independent WF oracle, the built-in checker and the unchanged/persistence monitors",
+)
